@@ -128,6 +128,10 @@ func init() {
 		if r.P(1, 8) {
 			n = r.Range(12, 60)
 		}
+		if r.P(1, 50) {
+			// many segments (sizes around powers of two)
+			n = []int{127, 128, 129, 130, 131, 255, 256, 257, 258, 511, 513, 1025}[r.Intn(12)]
+		}
 		integer := r.Bool()
 		ls := make(orb.LineString, 0, n)
 		for i := 0; i < n; i++ {
@@ -164,7 +168,7 @@ func init() {
 
 	h.Register(&h.Monitor{
 		ID: "C17",
-		Rule: "random lines of 0..60 vertices (nil, empty, single vertex, repeated vertices, zero-length segments, all-coincident, integer axis-parallel segments with integer lengths) resampled to N in {<=0, 1, 2, 3.., len-1, len, len+1, up to 1000} and to intervals d in {<=0, total/k exactly, total/k*(1+-ulp), > total, random}, with planar, equirectangular and haversine distance functions. " +
+		Rule: "random lines of 0..60 and occasionally 127..1025 vertices (nil, empty, single vertex, repeated vertices, zero-length segments, all-coincident, integer axis-parallel segments with integer lengths) resampled to N in {<=0, 1, 2, 3.., len-1, len, len+1, up to 1000} and to intervals d in {<=0, total/k exactly, total/k*(1+-ulp), > total, random}, with planar, equirectangular and haversine distance functions. " +
 			"non-trivial = line of positive length and N >= 3 (interior points are judged against the arclength oracle); distinct = hash of (line, N or d, distance function)",
 		MinNontrivial: h.Fixed(10000, 1000000),
 		Assumptions: []string{
@@ -192,6 +196,9 @@ func init() {
 						n = len(in) + r.Range(-1, 1)
 					case 3:
 						n = r.Range(60, 1000)
+						if len(in) > 100 {
+							n = r.Range(60, 200) // (the on-line oracle is quadratic)
+						}
 					default:
 						n = r.Range(2, 60)
 					}
